@@ -42,9 +42,13 @@ def monitors (cap : Nat) (preHeld : Nat) (itemSz : Nat) (allSmall : Bool) (prevR
   let m3 := if accepted && preHeld + itemSz > cap && !(n == 0 || preHeld + itemSz - heldI ≥ cap / 20) then ["prune_frees_5pct"] else []
   let m4 := if maxKept != "-" && beVal (unhex maxKept) > radius then ["retained_within_radius"] else []
   let m5 := if radius > prevRadius then ["radius_antitone"] else []
+  -- radii made of one repeated byte read the same in both byte orders: growth between two puts is then a violation whatever
+  -- the byte order (not covered by the recorded little-endian finding)
+  let rep (v : Nat) : Bool := v == (v % 256) * ((2 ^ 256 - 1) / 255)
+  let m7 := if radius > prevRadius && rep radius && rep prevRadius then ["radius_only_shrinks_in_both_byte_orders"] else []
   let m6 := if accepted && !(keyBE < prevRadius) then ["refusal_exact"] else
             if !accepted && keyBE < prevRadius then ["refusal_exact"] else []
-  m1 ++ m2 ++ m3 ++ m4 ++ m5 ++ m6
+  m1 ++ m2 ++ m3 ++ m4 ++ m5 ++ m6 ++ m7
 
 /-- fields of a snapshot that matter to each property; clauses each property owns -/
 def keysOf (prop : String) : List String :=
@@ -58,11 +62,12 @@ def clausesOf (prop : String) : List String :=
   if prop == "C04" then ["get_only_put", "get_returns_stored_until_pruned", "returned_bytes_stable", "put_error"]
   else if prop == "C05" then ["counter_ge_held", "held_le_cap", "prune_frees_5pct", "farthest_first", "put_error", "counter_ge_held_concurrent",
     "counter_ge_held_put_during_prune_sync", "put_returns"]
-  else if prop == "C06" then ["retained_within_radius", "radius_antitone", "refusal_exact", "radius_changes_only_by_own_prune"]
+  else if prop == "C06" then ["retained_within_radius", "radius_antitone", "refusal_exact", "radius_changes_only_by_own_prune",
+    "radius_only_shrinks_in_both_byte_orders"]
   else if prop == "C17" then ["open_radius_max_when_empty", "counter_ge_held"]
   else ["get_only_put", "get_returns_stored_until_pruned", "returned_bytes_stable", "put_error", "counter_ge_held", "held_le_cap", "prune_frees_5pct",
         "farthest_first", "retained_within_radius", "radius_antitone", "refusal_exact", "open_radius_max_when_empty", "radius_changes_only_by_own_prune",
-        "counter_ge_held_put_during_prune_sync", "put_returns"]
+        "counter_ge_held_put_during_prune_sync", "put_returns", "radius_only_shrinks_in_both_byte_orders"]
 
 def stepAll (d : DS) (toks : List String) (impl : String) : DS × Res :=
   let it := words impl
